@@ -771,6 +771,10 @@ func (e *Engine) readInto(st *State, rd *ReaderVal, bufv Val, rt types.Type, wha
 	var outs []Outcome
 	if e.FailReads {
 		bad := st.clone()
+		if l := e.streamLen(rd.S); l != nil {
+			// a reader over memory fails exactly when fewer than len(buf) bytes remain
+			bad.conds = append(bad.conds, &BoolVal{Op: ">", A: pos.Add(buf.Len), B: l})
+		}
 		bad.addEvent(Event{Kind: "readfail", Fn: what, Args: []Val{pos, buf.Len}, Pos: in.Pos()})
 		outs = append(outs, valueOutcome(bad, Tuple{e.A.App("short", types.Typ[types.Int], pos), &ErrVal{IsNil: false, Desc: what + " failed"}}))
 	}
